@@ -154,7 +154,9 @@ class CVRP:
     @staticmethod
     def extract(td_in, td0, b, env):
         dem = td0["demand"][b].tolist()
-        return dict(locs=td0["locs"][b].tolist(), demand=[0.0] + dem, cap=float(td0["vehicle_capacity"][b].reshape(-1)[0]), q=rational_scale(dem))
+        cap_ = float(td0["vehicle_capacity"][b].reshape(-1)[0])
+        # the common unit must measure the capacity too (vehicle_capacity 0.5 with demands in 25ths needs 50ths; DESIGN 40)
+        return dict(locs=td0["locs"][b].tolist(), demand=[0.0] + dem, cap=cap_, q=rational_scale(dem + [cap_]))
 
     @classmethod
     def violations(cls, inst, actions):
@@ -215,6 +217,8 @@ class SDVRP(CVRP):
         cap, used = inst["cap"], 0.0
         out = []
         q = inst["q"]
+        if q is not None and abs(cap * q - round(cap * q)) > 1e-3:
+            q = None  # the capacity is not a whole number of units: fall back to float arithmetic with tolerance
         if q is not None:
             rem = [int(round(v * q)) for v in rem]
             capi, used = int(round(cap * q)), 0
